@@ -1,6 +1,6 @@
 /-
 C06 — The linear-dependency-aware solver is transparent and reuses earlier solutions.
-Property theorems ONLY (helper lemmas: `Lemmas/LDAS.lean`, `Lemmas/LDASInv.lean`, `Lemmas/LDASReuse.lean`).
+Property theorems ONLY (helper lemmas: `Lemmas/LDAS.lean`, `Lemmas/LDASInv.lean`, `Lemmas/LDASReuse.lean`, `Lemmas/LDASNorm.lean`).
 
 Model: `LA/LDAS.lean` (state machine of `LDAWrapper` + `get_diagonal_indices`, code as repaired).
 Scalars: any field `α` with the operations record `c : Cfg α` satisfying `Laws c` (conjugation is an
@@ -10,6 +10,7 @@ External contract: the wrapped solver `inner A adj b x0` returns an exact soluti
 -/
 import PymotoVerif.Lemmas.LDASWitness
 import PymotoVerif.Lemmas.LDASReuse
+import PymotoVerif.Lemmas.LDASNorm
 import Mathlib.LinearAlgebra.Matrix.Notation
 import Mathlib.Tactic.NormNum
 import Mathlib.Tactic.FinCases
@@ -175,11 +176,11 @@ theorem inv_orth_update {c : Cfg α} (s : State n α) (A : Mat n α) (cplx : Boo
 
 /-- `solve` keeps both databases orthogonal (each later `b` is orthogonal to every earlier one) and free of
     zero-norm vectors: the append loop orthogonalises and skips a remainder with `bnrm ≤ tol·bnrm0` -/
-theorem inv_orth_solve {k : Nat} {c : Cfg α} (hlt : LtOK c n)
+theorem inv_orth_solve {k : Nat} {c : Cfg α} (hL : Laws c) (hsc : ScaleOK c) (hlt : LtOK c n)
     (inner : Mat n α → Bool → Vec n α → Option (Vec n α) → Vec n α) (s : State n α) (hO : OrthInv c s)
     (rhs : Blk n k α) (rhsC : Bool) (x0 : Option (Blk n k α × Bool)) (tr : Trans)
     {s' : State n α} {o : SolveOut n k α} (h : solve c inner s rhs rhsC x0 tr = .ok (s', o)) : OrthInv c s' :=
-  solve_orth hlt inner s hO rhs rhsC x0 tr h
+  solve_orth hL hsc hlt inner s hO rhs rhsC x0 tr h
 
 /-- REUSE: if every column of the effective right-hand side (conjugated as the mode table says), restricted to
     the non-diagonal index set, is a linear combination of the right-hand sides stored for the current matrix
@@ -203,6 +204,37 @@ theorem ldas_zero_remainder_free {k : Nat} {c : Cfg α} (hL : Laws c) (hlt : LtO
     (hzero : ∀ j, (reconstruct c d (Mc || rhsC) db (fun j => maskOff d (rhs j), fun j => diagSol M d (rhs j))).1 j = 0)
     {o : SolveOut n k α} (h : doSolve c solveFn M Mc d db rhs rhsC x0 = .ok o) : o.called = false :=
   doSolve_zero_rem hL hlt hd hdb hreal solveFn rhs rhsC x0 hzero h
+
+/-! ## the normalisation of the stored pairs is unobservable -/
+
+/-- The code stores `(xadd/bnrm, badd/bnrm)`; the model stores `(t·xadd, t·badd)` with `t = c.scale bnrm²`, an arbitrary
+    non-zero factor (the exact driver uses `t = 1`). For EVERY history, replacing the factor by any other non-zero
+    function `f` changes nothing a caller can observe: the same operations fail with the same error, and every solve
+    returns the same `x`, the same residual-test outcome per column (`did`), the same inner-call decision (`called`)
+    and the same number of skipped columns; the final states agree in every component except that each stored pair is
+    multiplied by a non-zero scalar (`StateSim`). The reason: a projection coefficient `⟨r,b⟩/⟨b,b⟩` scales as `1/t`,
+    so `α·(t x)` and `α·(t b)` do not depend on `t` (`coef_scale`). -/
+theorem ldas_norm_irrelevant {c : Cfg α} (hL : Laws c) (hsc : ScaleOK c) (f : α → α) (hf : ∀ a, f a ≠ 0)
+    (inner : Mat n α → Bool → Vec n α → Option (Vec n α) → Vec n α) (userSym userHerm : Option Bool)
+    (ops : List (Op n α)) :
+    (run (c.withScale f) inner (init userSym userHerm) ops).map Res.obs
+        = (run c inner (init userSym userHerm) ops).map Res.obs ∧
+    StateSim (finalState c inner (init userSym userHerm) ops)
+      (finalState (c.withScale f) inner (init userSym userHerm) ops) :=
+  run_sim hL hsc f hf inner ops _ _ (StateSim.refl _)
+
+/-- one call from related states (any reachable pair): same error, or same outputs and related new states -/
+theorem ldas_norm_irrelevant_solve {k : Nat} {c : Cfg α} (hL : Laws c) (hsc : ScaleOK c) (f : α → α)
+    (hf : ∀ a, f a ≠ 0) (inner : Mat n α → Bool → Vec n α → Option (Vec n α) → Vec n α) {s₁ s₂ : State n α}
+    (h : StateSim s₁ s₂) (rhs : Blk n k α) (rhsC : Bool) (x0 : Option (Blk n k α × Bool)) (tr : Trans) :
+    (∀ e, solve c inner s₁ rhs rhsC x0 tr = .error e → solve (c.withScale f) inner s₂ rhs rhsC x0 tr = .error e) ∧
+    (∀ s₁' o₁, solve c inner s₁ rhs rhsC x0 tr = .ok (s₁', o₁) →
+      ∃ s₂' o₂, solve (c.withScale f) inner s₂ rhs rhsC x0 tr = .ok (s₂', o₂) ∧ StateSim s₁' s₂' ∧
+        o₂.sol = o₁.sol ∧ o₂.did = o₁.did ∧ o₂.called = o₁.called ∧ o₂.dropped = o₁.dropped ∧ o₂.x0loc = o₁.x0loc) := by
+  obtain ⟨h1, h2⟩ := solve_sim hL hsc f hf inner h rhs rhsC x0 tr
+  refine ⟨h1, fun s₁' o₁ he => ?_⟩
+  obtain ⟨s₂', o₂, a, b, g1, g2, g3, g4, _, g6, _⟩ := h2 s₁' o₁ he
+  exact ⟨s₂', o₂, a, b, g1, g2, g3, g4, g6⟩
 
 /-! ## non-vacuity: a concrete instance of every hypothesis (ℚ, `cj = id`) -/
 
@@ -242,5 +274,9 @@ example : LtOK cfgQ 2 := by
 /-- the span hypothesis of `ldas_reuse` is satisfiable non-trivially: `3·b` lies in the span of a database `[⟨x, b⟩]` -/
 example (x b : Vec 2 ℚ) : SpanL [({ x := x, b := b, cplx := false } : Pair 2 ℚ)] (fun i => 3 * b i) :=
   ⟨3, 0, rfl, by funext i; simp⟩
+
+/-- the scale hypotheses are satisfiable: the driver's factor 1 and, e.g., the alternative factor 2 -/
+example : ScaleOK cfgQ ∧ ∀ a : ℚ, (fun _ : ℚ => (2 : ℚ)) a ≠ 0 :=
+  ⟨fun _ => one_ne_zero, fun _ => two_ne_zero⟩
 
 end PymotoVerif.C06
